@@ -440,6 +440,23 @@ fn explore_sugg(idx: usize, e: &Entry, thorough: bool, feature_on: bool, t: &mut
             let cands: Vec<String> = en.variants.iter().filter(|v| !v.skip).map(|v| en.eff_name(v)).collect();
             positions.push(("#[e({N})] struct S;".into(), vec![cands.clone()], cands.clone()));
             positions.push(("#[e({N} = 1)] struct S;".into(), vec![cands.clone()], cands));
+            // names inside a struct variant: the variant's own members, and below them the
+            // flatten member's chain
+            for v in en.variants.iter().filter(|v| !v.skip) {
+                if let VBody::Struct(fields) = &v.body {
+                    let own: Vec<String> = fields.iter().filter(|f| f.addressable()).map(|f| f.rename.clone().unwrap_or_else(|| f.rust.clone())).collect();
+                    let mut chain = match fields.iter().find(|f| f.flatten).map(|f| &f.ty) {
+                        Some(Ty::Struct(c)) | Some(Ty::BoxStruct(c)) => candidate_chain(prog, *c),
+                        _ => vec![],
+                    };
+                    chain.push(own);
+                    let known: Vec<String> = chain.iter().flatten().cloned().collect();
+                    let vn = en.eff_name(v);
+                    positions.push((format!("#[e({vn}({{N}} = 1))] struct S;"), chain.clone(), known.clone()));
+                    positions.push((format!("#[e({vn}({{N}} = 1, zz9q = 2))] struct S;"), chain.clone(), known.clone()));
+                    positions.push((format!("#[e({vn}(zz9q = 2, {{N}} = 1))] struct S;"), chain, known));
+                }
+            }
         }
         Decl::Struct(_) => {
             let chain = candidate_chain(prog, prog.root);
